@@ -9,14 +9,14 @@ rmdir "$WT"
 git -C /repo worktree add -q --detach "$WT" HEAD || exit 2
 export GOPROXY=off GOSUMDB=off GOTOOLCHAIN=local; unset GOFLAGS
 res="seed=$(basename "$S")"
-"$S/run_demo.sh" "$WT" >/tmp/seed_demo1.log 2>&1 && res="$res pristine_demo=PASS" || res="$res pristine_demo=FAIL"
-if git -C "$WT" apply "$S/patch.diff" 2>/tmp/seed_apply.log; then
+"$S/run_demo.sh" "$WT" >$WT.demo1.log 2>&1 && res="$res pristine_demo=PASS" || res="$res pristine_demo=FAIL"
+if git -C "$WT" apply "$S/patch.diff" 2>$WT.apply.log; then
   res="$res apply=ok"
-  (cd "$WT" && go build ./... >/tmp/seed_build.log 2>&1) && res="$res build=ok" || res="$res build=FAIL"
-  (cd "$WT" && go test -vet=off -count=1 ./... >/tmp/seed_t1.log 2>&1 && cd tests && go test -vet=off -count=1 ./... >/tmp/seed_t2.log 2>&1) && res="$res suite=PASS" || res="$res suite=FAIL"
-  "$S/run_demo.sh" "$WT" >/tmp/seed_demo2.log 2>&1 && res="$res patched_demo=PASS" || res="$res patched_demo=FAIL"
+  (cd "$WT" && go build ./... >$WT.build.log 2>&1) && res="$res build=ok" || res="$res build=FAIL"
+  (cd "$WT" && go test -vet=off -count=1 ./... >$WT.t1.log 2>&1 && cd tests && go test -vet=off -count=1 ./... >$WT.t2.log 2>&1) && res="$res suite=PASS" || res="$res suite=FAIL"
+  "$S/run_demo.sh" "$WT" >$WT.demo2.log 2>&1 && res="$res patched_demo=PASS" || res="$res patched_demo=FAIL"
 else
   res="$res apply=FAIL"
 fi
-git -C /repo worktree remove --force "$WT"
+git -C /repo worktree remove --force "$WT"; rm -f "$WT".*.log
 echo "$res"
